@@ -101,6 +101,12 @@ fn run_with_log(wk: &Worker, spec: &RunSpec) -> (RunResult, Vec<Call>) {
 /// pairs of benign deviations at consecutive reads (bound 2). Short and interrupted reads are legal answers: exit 0 and the
 /// files of the undisturbed run on `reference_world`. EIO is a block that cannot be read: non-zero exit, no final-named file.
 pub fn read_deviations(rep: &mut Report, root: &std::path::Path, prop: &str, world: &World, reference_world: &World, label: &str, callbacks: &[&'static str]) {
+    read_deviations_on(rep, root, prop, world, reference_world, label, callbacks, "blk")
+}
+
+/// `which`: path prefix below the data directory whose reads are numbered ("blk" = the blk files, "index/" = the LevelDB index).
+#[allow(clippy::too_many_arguments)]
+pub fn read_deviations_on(rep: &mut Report, root: &std::path::Path, prop: &str, world: &World, reference_world: &World, label: &str, callbacks: &[&'static str], which: &str) {
     let wk = Worker::new(root, 870);
     let mut refs: BTreeMap<&str, BTreeMap<String, Vec<u8>>> = BTreeMap::new();
     if let Err(m) = wk.materialise(reference_world) {
@@ -122,7 +128,7 @@ pub fn read_deviations(rep: &mut Report, root: &std::path::Path, prop: &str, wor
     }
     let rspec = |cb: &str, plan: &str| {
         let mut s = RunSpec::new("bitcoin", cb);
-        s.env.push(("FAULTFS_RPREFIX".into(), format!("{}/blk", wk.data().display())));
+        s.env.push(("FAULTFS_RPREFIX".into(), format!("{}/{}", wk.data().display(), which)));
         s.env.push(("FAULTFS_LOG".into(), wk.dir.join("shim.log").display().to_string()));
         if !plan.is_empty() {
             s.env.push(("FAULTFS_RPLAN".into(), plan.into()));
@@ -168,7 +174,7 @@ pub fn read_deviations(rep: &mut Report, root: &std::path::Path, prop: &str, wor
                 }
             }
             let mut spec = RunSpec::new("bitcoin", cb);
-            spec.env.push(("FAULTFS_RPREFIX".into(), format!("{}/blk", wk.data().display())));
+            spec.env.push(("FAULTFS_RPREFIX".into(), format!("{}/{}", wk.data().display(), which)));
             spec.env.push(("FAULTFS_RPLAN".into(), plan.clone()));
             let r = wk.run(&spec);
             acc.states += 1;
